@@ -111,19 +111,44 @@ print(json.dumps({"runs": n, "bad": bad, "stream_len": L}))
     h.cover("segmentations run")
 
 
+def _sweep_cache(repo, runs):
+    """Only for the sweep tools (PYVC_SWEEP_CACHE=<dir>): the 19 checks of one scratch tree run the same exploration 16 times;
+    the result is a function of the package source, the exploration script, the seed and the number of runs.  The registered
+    check commands never set the variable, so every registered run explores afresh."""
+    d = os.environ.get("PYVC_SWEEP_CACHE")
+    if not d:
+        return None
+    import hashlib
+    hsh = hashlib.sha256()
+    for root in (os.path.join(repo, "pyairtouch"), os.path.join(VERIF, "replay")):
+        for dp, _, fs in sorted(os.walk(root)):
+            for f in sorted(fs):
+                if f.endswith(".py"):
+                    hsh.update(f.encode())
+                    hsh.update(open(os.path.join(dp, f), "rb").read())
+    os.makedirs(d, exist_ok=True)
+    return os.path.join(d, f"history_{runs}_{hsh.hexdigest()[:24]}.json")
+
+
 def _history(runs):
     def script(h):
         if not h.symbolic:
             return
         env = dict(os.environ, PYVC_REPO=os.environ.get("PYVC_REPO", "/repo"))
-        try:
-            p = subprocess.run([PY, os.path.join(VERIF, "replay", "history_fuzz.py"), "20260928", str(runs)], capture_output=True, text=True,
-                               timeout=90 if runs <= 1000 else 1500, cwd=VERIF, env=env)
-            lines = [l for l in p.stdout.strip().splitlines() if l.startswith("{")]
-            res = json.loads(lines[-1]) if p.returncode == 0 and lines else {}
-            tail = p.stdout[-300:] + p.stderr[-300:]
-        except subprocess.TimeoutExpired:
-            res, tail = {}, "the exploration did not finish within its wall-clock limit (the real code spins or blocks)"
+        cache = _sweep_cache(env["PYVC_REPO"], runs)
+        if cache and os.path.exists(cache):
+            res, tail = json.load(open(cache)), "(result of the same exploration on the same source, reused within one sweep: PYVC_SWEEP_CACHE)"
+        else:
+            try:
+                p = subprocess.run([PY, os.path.join(VERIF, "replay", "history_fuzz.py"), "20260928", str(runs)], capture_output=True, text=True,
+                                   timeout=90 if runs <= 1000 else 1500, cwd=VERIF, env=env)
+                lines = [l for l in p.stdout.strip().splitlines() if l.startswith("{")]
+                res = json.loads(lines[-1]) if p.returncode == 0 and lines else {}
+                tail = p.stdout[-300:] + p.stderr[-300:]
+            except subprocess.TimeoutExpired:
+                res, tail = {}, "the exploration did not finish within its wall-clock limit (the real code spins or blocks)"
+            if cache and res:
+                json.dump(res, open(cache, "w"))
         h.oblige("the exploration ran to the end on the package's interpreter", bool(res), detail=tail)
         if not res:
             return
